@@ -1702,6 +1702,7 @@ class Exam:
         self.matlab_error = None  # MatlabError
         self.c_standalone = None
         self.c_syntax = None  # (ok, text)
+        self.cli = None  # (rc, output) of examine_cli
         self.timeouts = []
 
 
@@ -1715,6 +1716,62 @@ class Examiner:
     def close(self):
         self.py.close()
         self.js.close()
+
+    def extract(self, ex, paths, core_on, langs=("python", "c", "js", "matlab"), fresh_py=False, c_mode="probe"):
+        """Run the extractors on written outputs (paths: {"py","h","js","m"}); needs ex.ref, ex.psig and ex.core."""
+        ref = ex.ref
+        if "python" in langs:
+            try:
+                ex.raw["python"] = (py_load_fresh(paths["py"]) if fresh_py is True else self.py.load(paths["py"], fork=(fresh_py == "fork")))
+                ex.sigs["python"] = py_sig(ex.raw["python"], ref)
+            except ToolTimeout as t:
+                ex.timeouts.append(str(t))
+        if "c" in langs:
+            ex.c_standalone = not references_core(ex.psig, core_on)
+            if ex.c_standalone:
+                try:
+                    ex.c_syntax = c_syntax_only(paths["h"])
+                    if c_mode == "probe":
+                        ex.sigs["c"] = c_probe(paths["h"], ref, ex.core)
+                except ToolTimeout as t:
+                    ex.timeouts.append(str(t))
+        if "js" in langs:
+            try:
+                ex.raw["js"] = self.js.load(paths["js"])
+                ex.sigs["js"] = js_sig(ex.raw["js"], ref)
+            except ToolTimeout as t:
+                ex.timeouts.append(str(t))
+        if "matlab" in langs:
+            text = open(paths["m"]).read()
+            try:
+                tree = matlab_run(text, ignore_undefined=() if core_on else (MATLAB_HEADER_REF,))
+                ex.raw["matlab"] = tree
+                ex.sigs["matlab"] = matlab_sig(tree, ref)
+            except MatlabUnsupported:
+                raise
+            except MatlabError as e:
+                ex.matlab_error = e
+
+    def examine_cli(self, src, cli_flags=(), model_opts=None) -> Exam:
+        """Compile through the documented command line (honours compiler_options inside the YAML and the --no_* flags).
+        The reference is a parser model obtained with `model_opts` (default: validation off, so that it exists even for
+        files the command line is expected to reject).  ex.cli = (rc, output); sigs are filled only when rc == 0."""
+        ex = Exam()
+        with Work() as w:
+            root = materialize(src, w.sub("src"))
+            out = w.sub("out")
+            rc, text = compile_cli(root, out, "gdefs", cwd=w.dir, extra=list(cli_flags))
+            ex.cli = (rc, text)
+            if rc != 0:
+                return ex
+            mo = dict(model_opts or {"validate_alignment": False, "auto_pad": False, "import_coredefs": "--no_core_import" not in cli_flags})
+            p = parse_model(root, **mo)
+            core_on = mo.get("import_coredefs", True)
+            ex.core = frozenset(core_names()) if core_on else frozenset()
+            ex.psig = sig_from_parser(p)
+            ex.ref = dict(ex.psig, lang="reference")
+            self.extract(ex, {k: os.path.join(out, "gdefs" + OUT_EXT[k]) for k in ("py", "h", "js", "m")}, core_on)
+        return ex
 
     def examine(self, src, opts, expect=None, langs=("python", "c", "js", "matlab"), fresh_py=False, real_black=False,
                 c_mode="probe") -> Exam:
@@ -1731,37 +1788,5 @@ class Examiner:
             ex.core = frozenset(core_names()) if core_on else frozenset()
             ex.psig = sig_from_parser(c.parser)
             ex.ref = merge_ref(expect, ex.psig, ex.core) if expect is not None else dict(ex.psig, lang="reference")
-            ref = ex.ref
-            if "python" in langs:
-                try:
-                    ex.raw["python"] = (py_load_fresh(c.paths["py"]) if fresh_py is True else
-                                        self.py.load(c.paths["py"], fork=(fresh_py == "fork")))
-                    ex.sigs["python"] = py_sig(ex.raw["python"], ref)
-                except ToolTimeout as t:
-                    ex.timeouts.append(str(t))
-            if "c" in langs:
-                ex.c_standalone = not references_core(ex.psig, core_on)
-                if ex.c_standalone:
-                    try:
-                        ex.c_syntax = c_syntax_only(c.paths["h"])
-                        if c_mode == "probe":
-                            ex.sigs["c"] = c_probe(c.paths["h"], ref, ex.core)
-                    except ToolTimeout as t:
-                        ex.timeouts.append(str(t))
-            if "js" in langs:
-                try:
-                    ex.raw["js"] = self.js.load(c.paths["js"])
-                    ex.sigs["js"] = js_sig(ex.raw["js"], ref)
-                except ToolTimeout as t:
-                    ex.timeouts.append(str(t))
-            if "matlab" in langs:
-                text = open(c.paths["m"]).read()
-                try:
-                    tree = matlab_run(text, ignore_undefined=() if core_on else (MATLAB_HEADER_REF,))
-                    ex.raw["matlab"] = tree
-                    ex.sigs["matlab"] = matlab_sig(tree, ref)
-                except MatlabUnsupported:
-                    raise
-                except MatlabError as e:
-                    ex.matlab_error = e
+            self.extract(ex, c.paths, core_on, langs, fresh_py, c_mode)
         return ex
